@@ -592,12 +592,14 @@ EB_API EbErrorType svt_av1_dec_frame(EbComponentType *svt_dec_component, const u
         frame_size          = data_end - data_start;
         return_error = decode_multiple_obu(dec_handle_ptr, &data_start, frame_size, is_annexb);
 
-        if (return_error != EB_ErrorNone)
-            assert(0);
-
         dec_pic_mgr_update_ref_pic(dec_handle_ptr,
                                    (EB_ErrorNone == return_error) ? 1 : 0,
                                    dec_handle_ptr->frame_header.refresh_frame_flags);
+
+        // decode_multiple_obu() does not move the cursor past an OBU it could not parse:
+        // report the error instead of parsing the same bytes again for ever
+        if (return_error != EB_ErrorNone)
+            return return_error;
 
         // Allow extra zero bytes after the frame end
         while (data < data_end) {
